@@ -7,6 +7,8 @@ if ! git -C /repo diff --quiet; then echo "/repo has uncommitted changes"; exit 
 trap 'git -C /repo checkout -- .' EXIT; trap 'git -C /repo checkout -- .; exit 130' INT TERM
 for f in mutants/*.diff seeded/*/patch.diff; do
   case "$f" in *"$1"*) ;; *) continue;; esac
+  # SELFTEST_SKIP: egrep pattern of change names to leave out (e.g. '-[ABC][78]$' for the rounds re-evaluated by tools_seed.py)
+  if [ -n "$SELFTEST_SKIP" ] && echo "$(basename "$(dirname "$f")")" | grep -Eq "$SELFTEST_SKIP"; then continue; fi
   case "$f" in
     mutants/*) name=$(basename "$f" .diff); prop=$(echo "$name" | cut -c1-3 | tr c C);;
     *) name=$(basename "$(dirname "$f")"); prop=$(echo "$name" | cut -c1-3);;
